@@ -523,7 +523,7 @@ class FuncCanon(object):
         changed = False
         for blk in _all_blocks(self.fn):
             top = blk is self.fn.body
-            if self.star(blk) or self.flagloop(blk) or self.thread(blk) or self.deadstore(blk) or self.kw(blk) or self.split(blk) or self.retsplit(blk) or self.forelse(blk) or self.rot(blk) or self.brk(blk, top) or self.wtop(blk) or self.ifs(blk) or self.sink(blk) or self.unpack(blk) or self.fwd(blk):
+            if self.star(blk) or self.lockwith(blk) or self.flagloop(blk) or self.thread(blk) or self.deadstore(blk) or self.kw(blk) or self.split(blk) or self.retsplit(blk) or self.forelse(blk) or self.rot(blk) or self.brk(blk, top) or self.wtop(blk) or self.ifs(blk) or self.sink(blk) or self.unpack(blk) or self.fwd(blk):
                 return True
         return changed
 
@@ -602,6 +602,32 @@ class FuncCanon(object):
             if isinstance(n, ast.Lambda):
                 continue
             stack.extend(ast.iter_child_nodes(n))
+
+    # -- LOCKWITH --------------------------------------------------------------------------------------------------
+    def lockwith(self, blk):
+        """`L.acquire()` ; `try: B finally: L.release()`   ->   `with L: B`    (`await L.acquire()` -> `async with L`)"""
+        for i in range(len(blk) - 1):
+            a, t = blk[i], blk[i + 1]
+            if not (isinstance(a, ast.Expr) and isinstance(t, ast.Try) and not t.handlers and not t.orelse and len(t.finalbody) == 1):
+                continue
+            v = a.value
+            is_async = isinstance(v, ast.Await)
+            if is_async:
+                v = v.value
+            if not (isinstance(v, ast.Call) and isinstance(v.func, ast.Attribute) and v.func.attr == "acquire" and not v.args and not v.keywords and _simple_target(v.func.value)):
+                continue
+            r = t.finalbody[0]
+            rv = r.value if isinstance(r, ast.Expr) else None
+            if not (isinstance(rv, ast.Call) and isinstance(rv.func, ast.Attribute) and rv.func.attr == "release" and not rv.args and not rv.keywords
+                    and _dump(rv.func.value) == _dump(v.func.value)):
+                continue
+            item = ast.withitem(context_expr=v.func.value, optional_vars=None)
+            new = (ast.AsyncWith if is_async else ast.With)(items=[item], body=t.body)
+            ast.copy_location(new, a)
+            blk[i:i + 2] = [new]
+            self.bump("LOCKWITH")
+            return True
+        return False
 
     # -- FLAG ------------------------------------------------------------------------------------------------------
     def flagloop(self, blk):
